@@ -308,6 +308,14 @@ exe = executable('bin/exe', ['main.c'], libs=[a])
 install(exe)
 """, {'s.c': 'int s_fn(void) { return 5; }\n', 'a.c': 'int s_fn(void); int a_fn(void) { return s_fn(); }\n',
       'main.c': 'int a_fn(void); int main(void) { return a_fn() - 5; }\n'}, ['bin/exe'], True),
+    'versioned-shared': ("""
+v = shared_library('libs/ver', ['s.c'], version='1.2.3', soversion='1')
+st = static_library('mid/st', ['a.c'], libs=[v])
+exe = executable('bin/exe', ['main.c'], libs=[st])
+direct = executable('direct', ['main2.c'], libs=[v])
+""", {'s.c': 'int s_fn(void) { return 5; }\n', 'a.c': 'int s_fn(void); int a_fn(void) { return s_fn(); }\n',
+      'main.c': 'int a_fn(void); int main(void) { return a_fn() - 5; }\n',
+      'main2.c': 'int s_fn(void); int main(void) { return s_fn() - 5; }\n'}, ['bin/exe', 'direct'], False),
     'diamond-shared': ("""
 base = shared_library('x/base', ['s.c'])
 mid1 = shared_library('y/mid1', ['m1.c'], libs=[base])
